@@ -961,6 +961,81 @@ func TestC23(t *testing.T) {
 	}
 	c.Exhaustive("date-times within 14 h of each calendar boundary (pivots 49/50 and 68/69, year 0000/9999, century, month, leap day) x offsets +-00:00..14:30 x seconds/no seconds", tn)
 	c.Class("table:time-edges-x-offsets")
+	// Builder side of the same table: content lengths at every long-form boundary 2^7, 2^8, 2^16, 2^24 (-1, 0, +1)
+	// through AddASN1OctetString, AddASN1 with AddBytes, and an ASN.1 child nested in a SEQUENCE; the output must be
+	// the model encoding, equal encoding/asn1.Marshal, and read back with ReadASN1
+	{
+		zero := make([]byte, 1<<24+1)
+		bi := 0
+		for _, base := range []int{1 << 7, 1 << 8, 1 << 16, 1 << 20, 1 << 24} {
+			for d := -1; d <= 1; d++ {
+				L := base + d
+				body := zero[:L]
+				for form := 0; form < 3; form++ {
+					bi++
+					if !ev.Mine(bi) {
+						continue
+					}
+					var out []byte
+					var err error
+					var pan any
+					var want []byte
+					switch form {
+					case 0:
+						out, err, pan = c23BuildIn(0, func(b *cryptobyte.Builder) { b.AddASN1OctetString(body) })
+						want = rc.WrapTLV(rc.TagOctetString, body)
+						if err == nil && pan == nil {
+							if std, e2 := encasn1.Marshal(body); e2 != nil || !bytes.Equal(out, std) {
+								err = fmt.Errorf("differs from encoding/asn1.Marshal (%v)", e2)
+							}
+						}
+					case 1:
+						out, err, pan = c23BuildIn(1, func(b *cryptobyte.Builder) {
+							b.AddASN1(cbasn1.Tag(0xa3), func(c *cryptobyte.Builder) { c.AddBytes(body) })
+						})
+						want = rc.WrapTLV(0xa3, body)
+					default:
+						out, err, pan = c23BuildIn(0, func(b *cryptobyte.Builder) {
+							b.AddASN1(cbasn1.SEQUENCE, func(c *cryptobyte.Builder) {
+								c.AddASN1Int64(7)
+								c.AddASN1OctetString(body)
+							})
+						})
+						want = rc.WrapTLV(rc.TagSequence, append([]byte{2, 1, 7}, rc.WrapTLV(rc.TagOctetString, body)...))
+					}
+					what := fmt.Sprintf("Builder form %d with %d content bytes", form, L)
+					if pan != nil || err != nil {
+						c.Violation(what, "")
+						t.Fatalf("VF-VIOLATION: property=C23 %s: error %v panic %v (content length at a DER length-form boundary)", what, err, pan)
+					}
+					if !bytes.Equal(out, want) {
+						c.Violation(what, "")
+						t.Fatalf("VF-VIOLATION: property=C23 %s: header %x, want %x (%d vs %d bytes)", what, out[:min(8, len(out))], want[:8], len(out), len(want))
+					}
+					rd := cryptobyte.String(out)
+					var got cryptobyte.String
+					var tg cbasn1.Tag
+					if !rd.ReadAnyASN1(&got, &tg) || !rd.Empty() || byte(tg) != want[0] {
+						c.Violation(what, "")
+						t.Fatalf("VF-VIOLATION: property=C23 %s: output does not read back as one element", what)
+					}
+					if form == 2 {
+						var iv int64
+						var inner cryptobyte.String
+						if !got.ReadASN1Integer(&iv) || iv != 7 || !got.ReadASN1(&inner, cbasn1.OCTET_STRING) || len(inner) != L || !got.Empty() {
+							c.Violation(what, "")
+							t.Fatalf("VF-VIOLATION: property=C23 %s: nested child does not read back", what)
+						}
+					} else if len(got) != L {
+						c.Violation(what, "")
+						t.Fatalf("VF-VIOLATION: property=C23 %s: read back %d content bytes", what, len(got))
+					}
+					c.Case(true, fmt.Sprintf("build-lenlen|%d|%d", L, form), "table:builder-len-of-len")
+				}
+			}
+		}
+		c.Exhaustive("Builder content lengths 2^7, 2^8, 2^16, 2^20, 2^24 (-1, 0, +1) x {AddASN1OctetString, AddASN1+AddBytes after other output, nested in SEQUENCE}", bi)
+	}
 	// length-of-length boundaries with real bodies: every boundary of the DER length form (0x7f/0x80, 0xff/0x100,
 	// 0xffff/0x10000, 0xfffff/0x100000, 0xffffff/0x1000000) and every power of two 2^7..2^24 (+-1, and a value inside
 	// the octave), encoded minimally and with 1..3 leading zero octets (and in five octets), body present in full
